@@ -49,7 +49,16 @@ void h_associate(void)
         if (covered[c]) __CPROVER_assert(g_ci[c].m_before >= 0 && g_ci[c].m_after >= 0 && g_ci[c].m_before <= g_ci[c].m_after, "associateChars: a character claimed by a slot gets before <= after");
 #ifdef STRICT
         if (n0 > 0) {
-            __CPROVER_assert(g_ci[c].m_before >= 0 && g_ci[c].m_before < n0 && g_ci[c].m_after >= 0 && g_ci[c].m_after < n0, "every char-info before/after is a slot index in [0,n) when the segment has slots");
+            /* a character before the first / after the last claimed character is the committed known finding (its own
+               assertion, so that nothing else is masked); every other character must get both indices */
+            bool edge = true;
+            { bool cov_before = false, cov_after = false;
+              for (int d = 0; d < NCHARS; ++d) if ((size_t)d < M && covered[d]) { if (d <= c) cov_before = true; if (d >= c) cov_after = true; }
+              edge = !(cov_before && cov_after); }
+            if (!edge)
+                __CPROVER_assert(g_ci[c].m_before >= 0 && g_ci[c].m_before < n0 && g_ci[c].m_after >= 0 && g_ci[c].m_after < n0, "a character between claimed characters gets before/after in [0,n) (also when no slot claims it)");
+            else
+                __CPROVER_assert(g_ci[c].m_before >= 0 && g_ci[c].m_before < n0 && g_ci[c].m_after >= 0 && g_ci[c].m_after < n0, "every char-info before/after is a slot index in [0,n) when the segment has slots (unclaimed first/last characters)");
             bool in_some = false;
             for (int k = 0; k < NSLOTS; ++k) if (k < n0 && (int)g_pool[o0[k]].m_before <= c && c <= (int)g_pool[o0[k]].m_after) in_some = true;
             __CPROVER_assert(in_some, "every character index lies in the [before,after] range of at least one slot");
